@@ -623,6 +623,31 @@ example :
       [⟨1, 3, 2, 1⟩, ⟨0, 2, 3, 1⟩, ⟨0, 3, 1, 1⟩, ⟨1, 4, 2, 1⟩, ⟨0, 2, 4, 1⟩, ⟨0, 4, 1, 1⟩]⟩ : Mesh3 Int) = false := by
   decide
 
+/-- an integer scalar used only to run `checkVisible` inside `decide` (volumes are `-det/6` with truncating
+    division, `min_volume` rounds to 0) -/
+@[instance_reducible] def intScalar : Refine.Scalar Int :=
+  { add := (· + ·), sub := (· - ·), mul := (· * ·), div := Int.tdiv, neg := (- ·), abs := fun a => a.natAbs,
+    sqrt := id, exp := id, log := id, pow := fun a _ => a, ofInt := id,
+    ofDec := fun m e => if e < 0 then 0 else m * 10 ^ e.toNat,
+    le := fun a b => decide (a ≤ b), lt := fun a b => decide (a < b), isFinite := fun _ => true }
+
+/-- the edge 0-1 along z, ring 2,3,4 around it, node 5 on the edge -/
+def exGridXyz (flip : Bool) : Grid Int :=
+  let pts : List (Refine.Model.Geom.V3 Int) :=
+    [⟨0, 0, 0⟩, ⟨0, 0, 12⟩, ⟨12, 0, 6⟩, ⟨-6, 10, 6⟩, ⟨-6, -10, 6⟩, ⟨0, 0, 6⟩]
+  let g : Grid Int := pts.foldl (fun g p => (g.addNode ⟨p, true⟩).1) Grid.create
+  ((if flip then [⟨0, 1, 3, 2⟩, ⟨0, 1, 4, 3⟩, ⟨0, 1, 2, 4⟩] else [⟨0, 1, 2, 3⟩, ⟨0, 1, 3, 4⟩, ⟨0, 1, 4, 2⟩]) :
+    List Tet).foldl (fun g t => { g with tets := (g.tets.add t).1 }) g
+
+/-- hypotheses of `visible_positive`: the split cavity is visible from the mid-edge node; with the
+    ring orientation reversed (inverted tets) it is `boundary_constrained` -/
+example :
+    (@checkVisible Int intScalar (exGridXyz false) (addTets (exGridXyz false) (emptyCav 5) [0, 1, 2]).2).2.state = .visible ∧
+    (addTets (exGridXyz false) (emptyCav 5) [0, 1, 2]).2.state = .unknown ∧
+    (@checkVisible Int intScalar (exGridXyz true) (addTets (exGridXyz true) (emptyCav 5) [0, 1, 2]).2).2.state =
+      .boundary_constrained := by
+  decide
+
 /-- both outcomes of `insertFace_sum` occur: the reversed face cancels (ok), a rotated copy is `REF_INVALID` -/
 example : (insertFace exCav ⟨4, 3, 0⟩).1 = .ok ∧ (insertFace exCav ⟨4, 3, 0⟩).2.validFaces.length = 5 ∧
     (insertFace exCav ⟨3, 4, 0⟩).1 = .invalid ∧ (insertFace exCav ⟨7, 8, 9⟩).2.validFaces.length = 7 := by
